@@ -7,7 +7,7 @@ From RecordUpdate Require Import RecordSet.
 From PV Require Import Base.AList Gen.GenLabels Model.EventLib Model.Seq Model.Labels Model.LabelEval
                        Proofs.SeqSpec Proofs.SeqCache Proofs.LabelProofs Proofs.ExtProofs Proofs.ExtStore
                        Proofs.LabelTables Gen.GenFile Model.File Model.ExtFile Proofs.FileProofs Proofs.ExtFileProofs
-                       Proofs.ExtFileInv.
+                       Proofs.ExtFileInv Proofs.ExtFileReuse.
 Import ListNotations RecordSetNotations.
 Open Scope Z_scope.
 
@@ -268,7 +268,7 @@ Print Assumptions C19_round_us_spec.
 (* file_roundtrip_ext: write, then read into a fresh Sequence: the reader does not raise; every
    [EXTENSIONS] row and every label row comes back as it was; every trigger row comes back with delay and
    duration rounded to whole microseconds; every number <-> name pair of a kind that has events survives *)
-Theorem C19_file_roundtrip_ext : forall c0 c, file_ready c -> ext_l c0 = lib_empty ->
+Theorem C19_file_roundtrip_ext : forall c0 c, file_ready c -> (read_resets_ext_library = false -> ext_l c0 = lib_empty) ->
   exists c', reread_ext c0 c = Some c' /\
     (forall id, lib_get (ext_l c') id = lib_get (ext_l c) id) /\
     (forall id, lib_get (lset_l c') id = lib_get (lset_l c) id) /\
@@ -280,7 +280,7 @@ Proof. exact file_roundtrip_ext. Qed.
 Print Assumptions C19_file_roundtrip_ext.
 
 (* get_block's chain walk on the re-read store: the same entries in the same order *)
-Theorem C19_dec_ext_reread : forall c0 c c', file_ready c -> ext_l c0 = lib_empty -> reread_ext c0 c = Some c' ->
+Theorem C19_dec_ext_reread : forall c0 c c', file_ready c -> (read_resets_ext_library = false -> ext_l c0 = lib_empty) -> reread_ext c0 c = Some c' ->
   forall f eid r, dec_ext c f eid = Some r ->
     dec_ext c' f eid = Some (map file_payload r) /\
     labels_of_ext (map file_payload r) = labels_of_ext r /\
@@ -295,7 +295,7 @@ Print Assumptions C19_dec_ext_reread.
    (pypulseq keeps the library ids in the file, so not even the order inside a block changes), hence the
    result is the same for EVERY program, init and mode.  ([BLOCKS] rows are integers: C01.) *)
 Theorem C19_eval_labels_reread : forall c0 c c' init m x,
-  file_ready c -> ext_l c0 = lib_empty -> reread_ext c0 c = Some c' -> blocks c' = blocks c ->
+  file_ready c -> (read_resets_ext_library = false -> ext_l c0 = lib_empty) -> reread_ext c0 c = Some c' -> blocks c' = blocks c ->
   eval_table c init m = Some x -> eval_table c' init m = Some x.
 Proof. exact eval_labels_reread. Qed.
 Print Assumptions C19_eval_labels_reread.
@@ -321,6 +321,76 @@ Example C19_reread_example :
   | None => False
   end.
 Proof. vm_compute. repeat split; reflexivity. Qed.
+
+(* ==== read() onto an object that is not fresh ============================================================ *)
+(* Model/ExtFile.v [read_ext c0 f] for ANY receiving core c0 (C19_reread_ext_spec states the store): the trigger
+   and the two label libraries and both extension type lists are re-created from the file.  The extension library:
+   [read_resets_ext_library] is read from read_seq.py — true since /repo 9f51bed (re-created like the others);
+   before that commit the OLD library survived, data and keymap, whenever the file had no [EXTENSIONS] section.
+   All theorems of this section are proved for both values of the flag: the old behaviour left unused stale rows
+   in the library (and in the next written file — the C02 finding) but could not make get_block wrong. *)
+Theorem C19_reread_ext_spec : forall c0 c, xt_inv c ->
+  exists c', reread_ext c0 c = Some c' /\
+    ext_l c' = (if nonempty (ext_l c) then lib_of_rows lib_empty (map (read_row sec_ext) (wrows sec_ext (ext_l c)))
+                else if read_resets_ext_library then lib_empty else ext_l c0) /\
+    trig_l c' = lib_of_rows lib_empty (map (read_row sec_trig) (wrows sec_trig (trig_l c))) /\
+    lset_l c' = lib_of_rows lib_empty (map (read_row sec_lset) (wrows sec_lset (lset_l c))) /\
+    linc_l c' = lib_of_rows lib_empty (map (read_row sec_linc) (wrows sec_linc (linc_l c))) /\
+    (forall ty s, ext_type_str c ty = Some s -> lib_for c s = true -> ext_type_str c' ty = Some s) /\
+    NoDup (ext_num c') /\ NoDup (ext_str c') /\ List.length (ext_num c') = List.length (ext_str c').
+Proof. exact reread_ext_spec. Qed.
+Print Assumptions C19_reread_ext_spec.
+
+(* the invariant survives: the re-created libraries are built by insert(key_id, data) into a fresh library from rows
+   with distinct non-zero ids (no stale path remains there: keymap -> data is consistent, and for extension rows
+   also data -> keymap); a surviving extension library (old reader) is internally consistent, its entries are looked
+   up by their full content and decoded against the current tables.  So no stale keymap entry can make a later
+   add_block resolve to a wrong id: *)
+Theorem C19_read_onto_lab_inv : forall c0 c c',
+  lab_inv c0 -> fr_inv c -> reread_ext c0 c = Some c' -> lab_inv c'.
+Proof. exact read_onto_lab_inv. Qed.
+Print Assumptions C19_read_onto_lab_inv.
+
+(* and it is again ready to be written: histories may contain read() of files written by write(), onto any
+   object, any number of times *)
+Theorem C19_read_onto_fr_inv : forall c0 c c',
+  fr_inv c0 -> fr_inv c -> reread_ext c0 c = Some c' -> fr_inv c'.
+Proof. exact read_onto_fr_inv. Qed.
+Print Assumptions C19_read_onto_fr_inv.
+
+Theorem C19_add_block_after_read_onto : forall abs_fix c0 c c1 i evs hint c2 clr,
+  lab_inv c0 -> fr_inv c -> reread_ext c0 c = Some c1 ->
+  Forall ev_ok evs -> Forall ext_by_value evs ->
+  set_block_core abs_fix c1 i evs hint = (c2, clr, None) ->
+  exists ext, stored_ext c2 i = Some ext /\ Permutation ext (flat_map ext_event_payload evs).
+Proof. exact add_block_after_read_onto. Qed.
+Print Assumptions C19_add_block_after_read_onto.
+
+(* ... whereas a reader that does not re-create the TRIGGER library is refuted: the object holds a physio1
+   trigger of 2 ms under id 1, the file an osc0 output of 100 us under id 1; after the read the old
+   content -> id entry is still in the keymap, and adding the 2 ms trigger again stores a block that decodes
+   to the output pulse.  With the reader as it is the same steps return the trigger. *)
+Definition rx_run (evs : list mevent) : core :=
+  st_core (fst (run true true (fun k => k) (fun k => k) (fun k => k) (fun k => k)
+                    (mkState (core_init qc0 qc0 qc0 qc0) []) [AddBlock evs []])).
+Definition rx_trig : mevent := MCtl None 2 1 qc0 (Q2Qc (2 # 1000)).
+Definition rx_old : core := rx_run [MLabel None false (zq 1) 8; rx_trig].
+Definition rx_file : core := rx_run [MCtl None 1 1 qc0 (Q2Qc (1 # 10000))].
+Definition rx_codes (ext : list (Z * key)) : list (list Z) := map (fun k => map qz (firstn 2 k)) (trigs_of_ext ext).
+Definition rx_after (c : core) : option (list (list Z)) :=
+  option_map rx_codes (stored_ext (fst (fst (set_block_core true c 9 [rx_trig] []))) 9).
+
+Theorem C19_read_keep_trig_refuted :
+  match read_ext rx_old (snd (write_ext rx_file)), read_ext_keep_trig rx_old (snd (write_ext rx_file)) with
+  | Some cr, Some cv =>
+    rx_after cr = Some [[2; 1]] /\                                     (* trigger, physio1: what was added *)
+    rx_after cv = Some [[1; 1]] /\                                     (* output, osc0: the event of the file *)
+    aget key_eqb (lkeymap (trig_l cv)) [zq 2; zq 1; qc0; Q2Qc (2 # 1000)] = Some 1 /\
+    option_map (fun k => map qz (firstn 2 k)) (lib_get (trig_l cv) 1) = Some [1; 1]
+  | _, _ => False
+  end.
+Proof. vm_compute. repeat split; reflexivity. Qed.
+Print Assumptions C19_read_keep_trig_refuted.
 
 (* ==== tables read from the source (Gen/GenLabels.v) ================================================ *)
 Theorem C19_labels_table : List.length supported_labels = 21%nat /\ NoDup supported_labels.
